@@ -55,8 +55,10 @@ func NewCodecConn[Enc, Dec any](
 func (c *CodecConn[Enc, Dec]) AsyncReadNext(cb func(error, Dec)) {
 	item, err := c.codec.Decode(c.src)
 	if errors.Is(err, sonicerrors.ErrNeedMore) {
-		c.src.AsyncReadFrom(c.stream, func(err error, _ int) {
-			if err != nil {
+		c.src.AsyncReadFrom(c.stream, func(err error, n int) {
+			// Bytes which arrived together with an error (the end of the stream, typically) may complete an item:
+			// decode before giving up. If they do not, the next read reports the error again.
+			if err != nil && n <= 0 {
 				cb(err, c.emptyDec)
 			} else {
 				c.AsyncReadNext(cb)
@@ -78,10 +80,12 @@ func (c *CodecConn[Enc, Dec]) ReadNext() (Dec, error) {
 			return c.emptyDec, err
 		}
 
-		_, err = c.src.ReadFrom(c.stream)
-		if err != nil {
+		n, err := c.src.ReadFrom(c.stream)
+		if err != nil && n <= 0 {
 			return c.emptyDec, err
 		}
+		// else: bytes arrived, possibly together with an error; they may complete an item, and if they do not the
+		// next read reports the error again.
 	}
 }
 
